@@ -199,6 +199,10 @@ func c05Eval(c c05Case) (ok bool, sig, detail string) {
 	if ok, sig, detail := classify(exp, obs, what); !ok {
 		return false, sig, detail
 	}
+	// the operand itself is a value: Reverse and Complement must leave it as it was (the original record still holds it)
+	if now := locdom.Encode(loc); now != c.Loc && !c.Raw {
+		return false, "operand-modified", fmt.Sprintf("(%s).Reverse(%d) changed its receiver: it now reads %s", c.Loc, L, printLoc(loc))
+	}
 	// (b) involutions on locations
 	var rr, cc gts.Location
 	if p, msg := engine.Safely(func() { rr = rev.Reverse(L); cc = loc.Complement().Complement() }); p {
